@@ -6,7 +6,7 @@
    [sch] (openapi projection), [opts] (infer / prepend / AssociativeSequenceKeys) and [nonstr]
    (yaml.IsValueNonString) are universally quantified parameters. *)
 From KV Require Import Yaml.Walk Yaml.WalkProofs Yaml.WalkFields Yaml.Merge2 Yaml.Merge2Proofs Yaml.Merge2Identity Yaml.Merge2IdentityProofs Yaml.Merge2Idem Yaml.SmpSpec Yaml.Merge2Spec
-     Yaml.Merge2Frame Yaml.Merge2Examples Corr.SchemaTable Yaml.Merge3 Yaml.Merge3Examples Yaml.WalkGenProofs Gen.WalkTables.
+     Yaml.Merge2Frame Yaml.Merge2FrameList Yaml.Merge2Examples Corr.SchemaTable Yaml.Merge3 Yaml.Merge3Examples Yaml.WalkGenProofs Gen.WalkTables.
 
 (* merge2.Merge at the canonical fuel S(sum of depths) never runs out of fuel: for every schema, option
    set, patch and target the outcome is Ok / Err / Panic, never Diverge. *)
@@ -33,7 +33,7 @@ Print Assumptions C04_fuel_irrelevant.
    non-mapping value v at q that is not an implicit null is found at q in the result with the same tag
    and text; its style changes at most by the forced double-quoting of YAML-1.1-ambiguous strings
    ([quote11], see C04_quote11_same_value).
-   MISSING: paths that run through elements of keyed (associative) lists. *)
+   Paths that run through elements of keyed (associative) lists: C04_frame_keyed_list_partial below. *)
 Theorem C04_frame_partial :
   forall (Sc : Type) (sch : schema Sc) (opts : wopts) (nonstr : string -> bool),
     atomic_lists sch opts ->
@@ -45,6 +45,37 @@ Theorem C04_frame_partial :
       getp q r = Some (Fns.quote11 nonstr v).
 Proof. exact (@merge2_frame). Qed.
 Print Assumptions C04_frame_partial.
+
+(* Frame law THROUGH KEYED LISTS (partial), for every schema and option set (no [atomic_lists] hypothesis): paths made of
+   mapping steps [PK key] and list-element steps [PE k v] (the element whose merge key k has value v).
+   If [frame_okb sch opts None t p q = true] -- a boolean that walks down q and checks, with the walker's own schema
+   threading ([get_schema] / [child_schema] / [elem_schema]):
+     - at a mapping step: target mapping with pairwise different keys; patch absent there or a mapping without "$patch";
+     - at a list step: the walker treats the list as associative ([is_associative]) with the single merge key k
+       ([aseq_keys]: from the schema, or inferred); target and patch lists (the patch may be absent) consist of good
+       elements ([gel]: mappings with pairwise different keys, no "$patch" key -- so no directive elements --, a
+       non-null non-empty scalar under k); the target's key values are pairwise different; the patch list has no
+       element with key value v;
+     - at the end: the patch is absent --
+   then a non-null scalar v at q in the target is found at q in the result with the same tag and text (style: at
+   most [quote11]). Holds in prepend and in append mode; the other elements may be changed, added (their position is
+   not constrained) or deleted by the patch.
+   Guards vs findings: "no directive elements" is the complement of C04/reference/replace-directive-on-keyed-list-element
+   and of the list-directive idempotence classes; "non-null scalar" excludes C04/frame/unmentioned-null-field-dropped.
+   MISSING: elements the patch does mention (below them only the mentioned element's own fields would be framed),
+   several merge keys, lists of scalars (set lists), non-scalar leaves below list elements.
+   Non-vacuity: frame_keyed_example (Pod containers through the schema, kustomize's options),
+   frame_keyed_inferred_example (inferred key) in Yaml/Merge2FrameList.v. *)
+Theorem C04_frame_keyed_list_partial :
+  forall (Sc : Type) (sch : schema Sc) (opts : wopts) (nonstr : string -> bool)
+         (q : list pstep) (t : node) (p : option node) (r v : node),
+    q <> [] ->
+    merge2 sch opts nonstr p (Some t) = Ok (Some r) ->
+    frame_okb sch opts None t p q = true ->
+    getpe q t = Some v -> is_scalar v = true -> is_null v = false ->
+    getpe q r = Some (Fns.quote11 nonstr v).
+Proof. exact (@merge2_frame_keyed). Qed.
+Print Assumptions C04_frame_keyed_list_partial.
 
 Theorem C04_quote11_same_value :
   forall (nonstr : string -> bool) (v : node),
